@@ -147,7 +147,7 @@ let dump w : ostring =
       | Some k -> known := (k, txt) :: !known
       | None -> unknown := txt :: !unknown) lines;
   let known = OLst.stable_sort (fun (a, _) (b, _) -> compare a b) (OLst.rev !known) in
-  let all = OLst.map snd known @ OLst.rev !unknown in
+  let all = OLst.map snd known @ OLst.sort compare !unknown in
   OStr.concat " | " (("F " ^ OStr.concat " " (OLst.map (show_field w) root)) :: all)
 
 let fnv (s : ostring) : int =
